@@ -292,3 +292,65 @@ def c41_move_inherited(viol, inp, param):
     # the edit is addressed to a scenario/step and its target (or, for a move, the destination container) is an
     # element the scenario inherits from the base board
     return ok == 1 and len(board) > 0 and board[0] in ("s1", "s2") and inherited == 1
+
+
+# ---- parser positions (C02) --------------------------------------------------------------------------
+def _input_bytes(inp):
+    try:
+        return bytes.fromhex(inp.get("hex", ""))
+    except Exception:
+        return b""
+
+
+@classifier("c02_invalid_utf8_advances_three_bytes")
+def c02_invalid_utf8(viol, inp, param):
+    if not (viol["aspect"].startswith("line-column-offset") or viol["aspect"].endswith("outside-the-input") or viol["aspect"] in ("node-range-not-nested-in-its-parent", "key-segment-text-does-not-parse-back-to-its-value")):
+        return False
+    b = _input_bytes(inp)
+    try:
+        b.decode("utf-8")
+        return False
+    except UnicodeDecodeError:
+        return True
+
+
+@classifier("c02_unterminated_substitution_range")
+def c02_unterminated_subst(viol, inp, param):
+    # the string's own end is the last rune read by parseUnquotedString itself: what parseSubstitution
+    # consumed is not counted, so a value that ends on a substitution (terminated or not) ends too early
+    b = _input_bytes(inp)
+    return viol["aspect"] == "node-range-not-nested-in-its-parent" and b"${" in b
+
+
+@classifier("c02_line_continuation_at_end_column_minus_one")
+def c02_line_continuation(viol, inp, param):
+    if viol["aspect"] != "line-column-offset-of-an-error-disagree":
+        return False
+    d = json.loads(viol["detail"])
+    # "missing value after colon" is placed one rune before the first rune after the continuation: column 0 - 1
+    return b"\\\n" in _input_bytes(inp) and d[1][1] == -1
+
+
+@classifier("c02_unquoted_string_ending_on_escape")
+def c02_unquoted_escape_end(viol, inp, param):
+    if viol["aspect"] != "key-segment-text-does-not-parse-back-to-its-value":
+        return False
+    d = viol["detail"]
+    if d.startswith('"'):
+        d = json.loads(d)
+    m = re.search(r'covers ".*?(\\*)"$', d, re.S)
+    # the covered source text (Go %q: every backslash doubled) stops in the middle of the segment's final
+    # escape sequence, i.e. it ends on an odd number of backslashes
+    return bool(m) and (len(m.group(1)) // 2) % 2 == 1
+
+
+@classifier("c02_unquoted_key_ending_on_dash")
+def c02_unquoted_dash_end(viol, inp, param):
+    if viol["aspect"] != "key-segment-text-does-not-parse-back-to-its-value":
+        return False
+    d = viol["detail"]
+    if d.startswith('"'):
+        d = json.loads(d)
+    m = re.match(r'^"(.*)" covers "(.*)"$', d, re.S)
+    # a key that ends on a dash right before a line end or bracket: the dash is in the value, not in the range
+    return bool(m) and m.group(1) == m.group(2) + "-"
